@@ -230,11 +230,14 @@ Fixpoint mj_default (fuel : nat) (sub : list (C * cscores)) (n : nat) : list (re
             | inr e => inr e
             end
           else
-            let ch0 := closest_change sub medians in
+            (* the lead is shared: only the level candidates stay in the contest for these seats *)
+            let tied := match best with TieR l :: _ => l | _ => [] end in
+            let sub1 := filter (fun cd => cmem (fst cd) tied) sub in
+            let ch0 := closest_change sub1 medians in
             let ch := if (ch0 =? 0)%Z then 1%Z else ch0 in
             mj_default f (map (fun cd : C * cscores =>
                             let m := dget_or medians (fst cd) 0%Q in
-                            (fst cd, cs_set (snd cd) m (match cs_get (snd cd) m with Some k => k | None => 0%Z end - ch))) sub) n
+                            (fst cd, cs_set (snd cd) m (match cs_get (snd cd) m with Some k => k | None => 0%Z end - ch))) sub1) n
       end
   end.
 
